@@ -5,7 +5,9 @@
    outcomes (short transfers, Interrupted, Err, EOF / zero write), capacity 0.. and position (incl.
    beyond the end) the result equals the one-line reference of the helper, that the number of inner
    calls is bounded (termination; also <>Done under weak fairness), and that only documented error
-   kinds come out.  Deviations of the pinned code are named predicates (Dev..).
+   kinds come out.  The one open deviation of the code is a named predicate (DevVectoredPrefilled); the
+   seven repaired defects are switches (CONSTANT Fixed) and control configs with a fix switched off
+   must violate the property.
 2. The same TLC run prints every explored behaviour (case + schedule + model result); the harness
    replays each on the REAL helpers over scripted streams that follow the schedule, compares the
    observation with the model and evaluates the reference independently in Rust (contract oracle);
@@ -36,6 +38,9 @@ TECHNIQUE = "TLA+ model (TLC exhaustive + liveness) + spec-to-impl schedule repl
 DESIGN_REF = "3/C11"
 
 BIN = "replay_iohelpers"
+# repaired defects (switches of the model, CONSTANT Fixed)
+FIXES_HELPERS = ["read_to_end_appends", "bufreader_cap0", "copy_cap0", "bufwriter_accept"]
+FIXES_MEM = ["read_vectored_at_clamp", "vec_write_vectored", "vec_write_vectored_at"]
 PROBLEM_TYPES = ("contract", "panic", "hang", "mismatch")
 
 
@@ -127,18 +132,27 @@ def run(run, tier, replay):
                                        timeout=170 if quick else 900)
             jobs["strict"] = ex.submit(vlib.tlc, "IoHelpers", "MC_IoHelpers_strict.cfg", workers=1, timeout=170,
                                        coverage=False)
-            jobs["strictmem"] = ex.submit(vlib.tlc, "IoHelpersMem", "MC_IoHelpersMem_strict.cfg", workers=1, timeout=170,
+            # controls for the repaired defects: with the fixes switched off (Fixed = {}) the old behaviour
+            # must violate the property
+            jobs["unfixed"] = ex.submit(vlib.tlc, "IoHelpers", "MC_IoHelpers_unfixed.cfg", workers=1, timeout=170,
+                                        coverage=False)
+            jobs["strictmem"] = ex.submit(vlib.tlc, "IoHelpersMem", "MC_IoHelpersMem_unfixed.cfg", workers=1, timeout=170,
                                           coverage=False)
             if not quick:
                 jobs["mc"] = ex.submit(vlib.tlc, "IoHelpers", "MC_IoHelpers_thorough.cfg", workers=4, timeout=1500)
                 jobs["sim"] = ex.submit(_gen, "Gen_IoHelpers", "Gen_IoHelpers_sim.cfg", ps, counts_sim, simulate=40000,
                                         depth=60, timeout=1500, coverage=False)
-                for inv in ("StrictReadToEnd", "StrictVectoredPrefilled", "StrictBufReaderZeroCap", "StrictCopyZeroCap",
-                            "StrictBufWriterInterrupted"):
-                    cfgp = os.path.join(tmp, "strict_%s.cfg" % inv)
-                    with open(os.path.join(vlib.SPEC, "MC_IoHelpers_strict.cfg")) as src, open(cfgp, "w") as dst:
-                        dst.write(src.read().replace("INVARIANTS Conforms", "INVARIANTS " + inv))
-                    jobs["strict_" + inv] = ex.submit(vlib.tlc, "IoHelpers", cfgp, workers=1, timeout=600, coverage=False)
+                # every single fix taken out of Fixed must violate the property on its own
+                allf = FIXES_HELPERS + FIXES_MEM
+                for fx in allf:
+                    rest = ", ".join('"%s"' % x for x in allf if x != fx)
+                    mem = fx in FIXES_MEM
+                    base = "MC_IoHelpersMem_unfixed.cfg" if mem else "MC_IoHelpers_unfixed.cfg"
+                    cfgp = os.path.join(tmp, "without_%s.cfg" % fx)
+                    with open(os.path.join(vlib.SPEC, base)) as src, open(cfgp, "w") as dst:
+                        dst.write(src.read().replace("Fixed = {}", "Fixed = {%s}" % rest))
+                    jobs["without_" + fx] = ex.submit(vlib.tlc, "IoHelpersMem" if mem else "IoHelpers", cfgp, workers=1,
+                                                      timeout=600, coverage=False)
             # 3. build the harness meanwhile
             phase("TLC jobs started, building harness")
             vlib.cargo_build("hio", [BIN])
@@ -168,11 +182,12 @@ def run(run, tier, replay):
         if vlib.zero_actions(gm):
             raise vlib.ToolError("IoHelpersMem: actions never taken")
         run.add_model("IoHelpersMem (in-memory readers, writers, cursors; positions beyond the end)", gm)
-        _expect_violation(res["strict"], "IoHelpers", ("Conforms",))
-        _expect_violation(res["strictmem"], "IoHelpersMem", ("MemStrict",))
+        _expect_violation(res["strict"], "IoHelpers (open deviation)", ("Conforms",))
+        _expect_violation(res["unfixed"], "IoHelpers with the fixes switched off", ("ConformsModuloOpen",))
+        _expect_violation(res["strictmem"], "IoHelpersMem with the fixes switched off", ("MemStrict",))
         for k, r in res.items():
-            if k.startswith("strict_"):
-                _expect_violation(r, k, (k[len("strict_"):],))
+            if k.startswith("without_"):
+                _expect_violation(r, k, ("ConformsModuloOpen", "MemStrict"))
         if "sim" in res and (res["sim"].error or res["sim"].violated):
             raise vlib.ToolError("IoHelpers simulation: %s %s\n%s" % (res["sim"].error, res["sim"].violated,
                                                                        res["sim"].out[-2000:]))
